@@ -24,6 +24,7 @@ func checkC09(c *Ctx) {
 
 	c.Rule("C09/R8", "every field has its own first-observation table: the map stored into Field.order (and the comparator reading it) is created inside the per-field initialiser, never captured from outside it, so the keys inside .config do not share ranks")
 	c.Rule("C09/R9", "numeric suffix scales cannot wrap: no left shift in the sorting code has an amount that provably reaches the operand's width for an entry of a literal suffix table (1<<(10*exp) is 0 from Zi on; math.Pow has no such limit)")
+	c.Rule("C09/R13", "a field comparator is an order: for every closure stored into Field.cmp, wherever a path of cmp(a,b) and a path of cmp(b,a) can be taken by the same pair of values, constant results are opposite")
 	c.Rule("C09/R12", "SortKeys compares by every flattened field: the field list its comparison passes to the shared less function is FlattenedFields() as returned, assigned once")
 	c.Rule("C09/R11", "observation order is recorded for every new key: the loop filling the fields' observation maps is reached under no condition of its own")
 	c.Rule("C09/R10", "the flattened-field cache's 'built' state is its being non-nil: the Once-guarded builder leaves a non-nil slice on every path (also with zero leaf fields) and the reset triggered by a new field is guarded by 'cache != nil' only")
@@ -34,6 +35,7 @@ func checkC09(c *Ctx) {
 	c09FlatInvariant(c, p, "C09/R10")
 	c09OrderAlways(c, p)
 	c09SortKeysAllFields(c, p)
+	c09Antisymmetric(c, p)
 }
 
 func c09(c *Ctx, p *Prog) {
